@@ -221,7 +221,8 @@ Next == x' = x
             cubic = shape[0] == shape[1] == shape[2]
             npart = int(rng.integers(2, 9))
             ms = np.stack([rng.integers(0, shape[a] * Q + 1, npart) for a in range(3)], axis=1)
-            ws = rng.choice([1.0, 0.75, 0.5, 2.0], npart)
+            # weights of either sign (data minus randoms) and zero weights: the deposit is linear in the weights
+            ws = rng.choice([1.0, 0.75, 0.5, 2.0] if rep % 4 < 2 else [1.0, -1.0, -0.5, 2.0, 0.0], npart)       # (both kernel kinds: rep % 2 picks the kind)
             if kind == 'TSC' and cubic:
                 o = int(rng.choice(OFFS))
                 off = o * (box / shape[0]) / Q
